@@ -824,7 +824,7 @@ func main() {
 	engine.Main(&engine.Spec{
 		Prop:  "C30",
 		Level: "exploration",
-		Rule: "all patterns of depth ≤ 2 (thorough: also depth-3 spines: every composite form with one slot holding a depth-2 pattern built from {1, x, _}, the other slot a variable; in 4 contexts, behind 3 never-matching patterns and under 6 precise types) over {literal, relational, ==/!=, range (8 kinds), identifier, _, must, p?, p as x, p||q, p&&q, object/type (user class, subclass, built-in class, mixin), constant, list/tuple with and without (named) rest, map, record, set} " +
+		Rule: "all patterns of depth ≤ 2, 144 depth-3 list patterns with sibling nested list patterns after a leading rest element (thorough: also depth-3 spines: every composite form with one slot holding a depth-2 pattern built from {1, x, _}, the other slot a variable; in 4 contexts, behind 3 never-matching patterns and under 6 precise types) over {literal, relational, ==/!=, range (8 kinds), identifier, _, must, p?, p as x, p||q, p&&q, object/type (user class, subclass, built-in class, mixin), constant, list/tuple with and without (named) rest, map, record, set} " +
 			"× 45 scrutinee values (ints, float, strings, symbols, nil, bools, lists, tuples, maps, records, sets, objects of a class and a subclass) in: switch+else, switch+catch-all case, behind each of 12 (quick: 6) never-matching patterns, if-match, match expression, var/val pattern declaration; statically typed `any` and 16 (quick: 12) precise types (patterns predicted inadmissible for the type are skipped); " +
 			"all ordered pairs of 40 (quick: 24) and triples of 12 representative patterns; exhaustive switches without else over bool, nilable and union types. Oracle: reference matcher (selected case, every bound variable). A case is non-trivial when the reference specifies its outcome; cases are not repeated",
 		Assume:      []string{"the reference matcher's rules are those stated by compiler/bytecode_compiler.go pattern(), types/checker/pattern.go and the `#contains` doc comments", "a missing map/record key is UNSPECIFIED unless the sub-pattern cannot match an absent entry", "identifier patterns naming an existing variable, repeated identifiers and guards (no grammar) are outside the space"},
